@@ -65,6 +65,8 @@ def _wrapper_attr(w):
 
 WRAPPERS = {w: _wrapper(w) for w in 'abc'}
 WRAPPERS_ATTR = {w: _wrapper_attr(w) for w in 'abc'}
+JHolder = nn.jit(Holder)
+JWRAP_ATTR_C = nn.jit(WRAPPERS_ATTR['c'])
 
 # the *_f variants spell the lifting filters out (all collections / streams the family uses): same meaning as the defaults
 LIFTS = {'jit': nn.jit, 'remat': nn.remat,
@@ -88,10 +90,15 @@ def make_top(decl, uses, init_mode):
       self.b = self.a
     elif kb == 'holder':
       self.b = Holder(self.a)
+    elif kb in ('jholder', 'jholder2'):
+      self.b = JHolder(self.a)
+      if kb == 'jholder2':
+        self.c2 = Leaf()
+        self.b2 = JHolder(self.c2)
     if w != 'none' and shared:
       nn.share_scope(self, self.wrapped)
   ns = {'setup': setup, '__annotations__': {'wrapped': nn.Module}, 'wrapped': None}
-  for a in ('a', 'b', 'wrapped'):
+  for a in ('a', 'b', 'wrapped', 'b2'):
     def use(self, a=a):
       return getattr(self, a)()
     use.__name__ = 'use_' + a
@@ -127,6 +134,8 @@ def instance(decl, uses, init_mode):
   w, ws = decl[2], decl[4]
   if w == 'none':
     return cls(None)
+  if ws == 'jattr':
+    return cls(JWRAP_ATTR_C(Leaf()))
   return cls(WRAPPERS[w]() if ws == 'setup' else WRAPPERS_ATTR[w](Leaf()))
 
 
